@@ -69,6 +69,11 @@ claimed = {
          "Seeded upstream/downstream trees (nested, odd and prefix-related names), directives with and without upstream path and trailing slash (grid walked by run index), upstream recording new states and revoking its latest entry between repeated propagations, unrelated downstream commits; after every call the downstream tree and log are read with ls-tree -z / git log and compared with the model (exact subtree, bystanders byte-identical, propagation entry naming upstream location and entry, no commit or entry when content already matches).",
          "Real internal/propagation, gitinterface and git 2.39; local repositories only; this machine spawns ~100 git processes per second in total, so runs are few and stratified.",
          "DESIGN.md §6 C18"),
+ "C10": ("exploration",
+         "deterministic simulation on real git: harness-written commit graphs over an odd path alphabet with seeded signer patterns, verified through the real gitinterface parsers and verifier",
+         "Policies with a literal and a directory-prefix file rule; commit graphs (linear, merged side branch, merged unrelated root) over names with space, tab, quote, backslash, control, multi-byte and glob characters, signed by the authorised developer, another developer or nobody; (i) GetFilePathsChangedByCommit / GetAllFilesInTree must return exactly the names written, (ii) full verification must reject an unauthorised non-merge change to a protected path and accept fully authorised histories.",
+         "Real gitinterface and git 2.39; history written by harness plumbing with in-process signatures; few, stratified runs (process spawning is the bottleneck).",
+         "DESIGN.md §6 C10"),
 }
 
 not_applicable = {
